@@ -48,8 +48,9 @@ def command_orders(ctx, n_ws):
     import re
     import shutil
     from concurrent.futures import ThreadPoolExecutor
-    from checks import c15
+    from checks import c12, c15
     cargo_libcnb = c15.build_cargo_libcnb(ctx)
+    so = c12.build_shim()
     env = dict(os.environ, CARGO=shutil.which("cargo"), CARGO_NET_OFFLINE="true")
     env.pop("CI", None)
     rng = random.Random(ctx.seed * 7919 + 13)
@@ -87,17 +88,28 @@ def command_orders(ctx, n_ws):
                 f'api = "0.10"\n\n[buildpack]\nid = "v/{x}"\nversion = "1.0.0"\n\n[[order]]\n[[order.group]]\nid = "x/y"\nversion = "1.0.0"\n')
             open(os.path.join(p, "package.toml"), "w").write(
                 '[buildpack]\nuri = "."\n' + "".join(f'\n[[dependencies]]\nuri = "libcnb:v/{y}"\n' for y in c["deps"][x]))
-        pr = c15.sh([cargo_libcnb, "libcnb", "package", "--target", c15.TARGET, "--no-cross-compile-assistance"], cwd=os.path.join(root, c["cwd"]), env=env)
-        order = [m.group(1)[2:] for m in re.finditer(r"\[\d+/\d+\] Building (\S+)", pr.stderr)]
+        # the order is observed at the file system (first call beneath each buildpack's output directory, logged by
+        # the LD_PRELOAD shim in log-only mode), so it does not depend on the wording of the progress messages
+        out = os.path.join(root, "packaged")
+        logf = os.path.join(root, "calls.log")
+        penv = dict(env, LD_PRELOAD=so, FAULT_PREFIX=out, FAULT_ACTIVE="1", FAULT_K="0", FAULT_LOG=logf)
+        pr = c15.sh([cargo_libcnb, "libcnb", "package", "--target", c15.TARGET, "--no-cross-compile-assistance"], cwd=os.path.join(root, c["cwd"]), env=penv)
+        order = []
+        if os.path.exists(logf):
+            for line in open(logf, errors="replace"):
+                m = re.search(r"/packaged/[^/]+/[^/]+/v_([a-z])(/|$)", line.rstrip("\n"))
+                if m and m.group(1) not in order:
+                    order.append(m.group(1))
+        printed = [m.group(1)[2:] for m in re.finditer(r"\[\d+/\d+\] Building (\S+)", pr.stderr)]
         shutil.rmtree(root, ignore_errors=True)
-        return c, pr.returncode, order, pr.stderr[-300:]
+        return c, pr.returncode, order, pr.stderr[-300:], printed
 
     events = []
     with ThreadPoolExecutor(max_workers=16) as ex:
-        for c, rc, order, err in ex.map(one, cases):
+        for c, rc, order, err, printed in ex.map(one, cases):
             roots = sorted(c["dirs"]) if c["cwd"] == "" else [x for x, d in c["dirs"].items() if d == c["cwd"]]
             events.append({"kind": "order" if rc == 0 else "order-prefix", "deps": c["deps"], "roots": roots, "order": order, "ok": True,
-                           "rc": rc, "stderr": "" if rc == 0 else err})
+                           "rc": rc, "stderr": "" if rc == 0 else err, "printed": printed})
     shutil.rmtree(base, ignore_errors=True)
     return events
 
